@@ -94,13 +94,16 @@ class CSSParser(object):
             :class:`~css_parser.css.CSSStyleDeclaration`
         """
         self.__parseSetting(True)
-        if isinstance(cssText, bytes):
-            # TODO: use codecs.getdecoder('css') here?
-            cssText = cssText.decode(encoding)
-        if validate is None:
-            validate = self._validate
-        style = css.CSSStyleDeclaration(cssText, validating=validate)
-        self.__parseSetting(False)
+        try:
+            if isinstance(cssText, bytes):
+                # TODO: use codecs.getdecoder('css') here?
+                cssText = cssText.decode(encoding)
+            if validate is None:
+                validate = self._validate
+            style = css.CSSStyleDeclaration(cssText, validating=validate)
+        finally:
+            # restore the global setting also if parsing raised
+            self.__parseSetting(False)
         return style
 
     def parseString(self, cssText, encoding=None, href=None, media=None,
@@ -133,24 +136,27 @@ class CSSParser(object):
             :class:`~css_parser.css.CSSStyleSheet`.
         """
         self.__parseSetting(True)
-        # TODO: py3 needs bytes here!
-        if isinstance(cssText, bytes):
-            cssText = codecs.getdecoder('css')(cssText, encoding=encoding)[0]
+        try:
+            # TODO: py3 needs bytes here!
+            if isinstance(cssText, bytes):
+                cssText = codecs.getdecoder('css')(cssText, encoding=encoding)[0]
 
-        if validate is None:
-            validate = self._validate
+            if validate is None:
+                validate = self._validate
 
-        sheet = css_parser.css.CSSStyleSheet(
-                href=href,
-                media=css_parser.stylesheets.MediaList(media),
-                title=title,
-                validating=validate)
-        sheet._setFetcher(self.__fetcher)
-        # tokenizing this ways closes open constructs and adds EOF
-        sheet._setCssTextWithEncodingOverride(self.__tokenizer.tokenize(cssText,
-                                                                        fullsheet=True),
-                                              encodingOverride=encoding)
-        self.__parseSetting(False)
+            sheet = css_parser.css.CSSStyleSheet(
+                    href=href,
+                    media=css_parser.stylesheets.MediaList(media),
+                    title=title,
+                    validating=validate)
+            sheet._setFetcher(self.__fetcher)
+            # tokenizing this ways closes open constructs and adds EOF
+            sheet._setCssTextWithEncodingOverride(self.__tokenizer.tokenize(cssText,
+                                                                            fullsheet=True),
+                                                  encodingOverride=encoding)
+        finally:
+            # restore the global setting also if parsing raised
+            self.__parseSetting(False)
         return sheet
 
     def parseFile(self, filename, encoding=None,
